@@ -129,3 +129,24 @@ PROPERTIES["C13"] = dict(
              quick=dict(params=dict(N=3)), thorough=dict(params=dict(N=5)), args=dict(sample_every=499)),
     ],
 )
+
+PROPERTIES["C10"] = dict(
+    explanation="K1: symx executes the annotation Val algebra, nilabilitySet.checkNilability and (*ObservedMap).Range from SSA with all four flags of every Val, every isFinalVal argument "
+                "and both type-default predicates symbolic: each assertion is decided for all flag values at once. K2: the inference engine's observe* functions with an annotation observed first, "
+                "followed by <=N symbolic constraints (as C05 L1).",
+    bounds=dict(quick="K1: chains of <=3 make* operations; <=3 map entries over 6 annotation-map kinds; K2: annotation + <=3 constraints over 3 sites",
+                thorough="K1: chains of <=4; K2: annotation + <=4 constraints over 4 sites"),
+    outside=["the comment grammar (seqRegex is a compiled regexp; the regexp VM on symbolic text is out of reach and package initialisers are not run)",
+             "lookup of annotated names in declarations (newObservedMap: AST + types.Info)", "multi-package layouts beyond C03"],
+    assumptions=COMMON_ASSUMPTIONS + ["TypeIsDefaultNilable / TypeIsDeepDefaultNilable are replaced by the two Booleans they return under symx; the native replay uses real types with those defaults"],
+    exhaustive=False,
+    runs=[
+        dict(pkg="annotation", files=["annotation/zz_verif_c10.go"], entry="Harness_C10_Algebra",
+             quick=dict(params=dict(OPS=3)), thorough=dict(params=dict(OPS=4)), args=dict(sample_every=29)),
+        dict(pkg="annotation", files=["annotation/zz_verif_c10.go"], entry="Harness_C10_Check", args=dict(sample_every=2)),
+        dict(pkg="annotation", files=["annotation/zz_verif_c10.go"], entry="Harness_C10_Range",
+             quick=dict(params=dict(ENTRIES=2)), thorough=dict(params=dict(ENTRIES=3)), args=dict(sample_every=499)),
+        dict(pkg="inference", files=INFER_FILES, entry="Harness_C10_Binding",
+             quick=dict(params=dict(S=3, N=3)), thorough=dict(params=dict(S=4, N=4)), args=dict(sample_every=499)),
+    ],
+)
